@@ -87,8 +87,7 @@ theorem stop_join_measure (A : List Op) (B : Option (List Op)) (s s' : State)
     · rw [h1]; exact Nat.le_refl _
     · rw [h1, h2]; cases n <;> decide
     · exact absurd h1 hne
-  · cases s.ps <;> simp [mu]
-    rename_i n; cases n <;> simp [mu]
+  · cases s.ps <;> first | (simp [mu]; done) | (rename_i n; cases n <;> decide)
 
 /-- (3d) While a `simcam_stop` is in progress and the streamer has not finished, the streamer is
 never stuck: it is enabled, or the lock it needs is held by an enabled thread, or it sleeps and the
@@ -104,6 +103,22 @@ theorem stop_streamer_progress (A : List Op) (B : Option (List Op)) (s : State)
     (∀ (w : Who) (g : Bool), s.pc w = .stopJoin g → s.ps = .fin → enabled s w.tid = true) := by
   refine ⟨fun ha => streamer_not_stuck (inv_reach h) hstop ha, fun w g hw hf => ?_⟩
   cases w <;> simp [enabled, step, cstep, Who.tid, State.pc] at hw ⊢ <;> simp [hw, hf]
+
+/-- (3e) Stop unblocks a pending frame call: once `is_running` is clear, a frame call is still asleep
+un-notified only while a notifier is on its way (the streamer at its `notify_all`, or the stopping
+caller before its `notify_all(frame_ready)`); and a frame call that was woken, or that has yet to take
+the lock, returns at its very next step, without a frame. -/
+theorem stop_unblocks_frame_call (A : List Op) (B : Option (List Op)) (s : State)
+    (h : Reach (init A B) s) (hr : s.running = false) (w : Who) :
+    (s.pc w = .getAsleep false → s.ps = .notifyF ∨ (s.pc w.other).stopPre = true) ∧
+    (∀ s', (s.pc w = .getAsleep true ∨ s.pc w = .getLock) → step s w.tid = some s' →
+      (s'.pc w).quiet = true ∧ s'.log.head? = some (.res w .get .noframe)) := by
+  refine ⟨fun hw => ?_, fun s' hp hs => ?_⟩
+  · rcases no_lost_wakeup_frame_call A B s h w hw with ⟨h1, _⟩ | h2
+    · rw [hr] at h1; cases h1
+    · exact h2
+  · cases w <;> simp only [State.pc] at hp <;> simp only [Who.tid] at hs <;> step_cases hs <;>
+      simp_all [State.pc]
 
 /-! ## Non-vacuity: concrete reachable states (schedules taken from runs of the real code) -/
 
